@@ -1,5 +1,6 @@
 SPECIFICATION Spec
 CONSTANTS
+  World = "w1"
   MaxPages = 4
   MaxBuf = 3
   GenDepth = 12
